@@ -24,6 +24,9 @@ func snapshot(sb align.SeqBag) []row {
 	return rows
 }
 
+// collisionLookups counts the by-name comparisons made on a name shared by several rows (evidence)
+var collisionLookups int
+
 const absentProbe = "\x01no such name\x01"
 
 // observe returns an error as soon as one access path disagrees with the model
@@ -146,6 +149,26 @@ func observe(sb align.SeqBag, m *model) error {
 		}
 		if !found {
 			return fmt.Errorf("GetSequenceIdByName(%q)=%d, model rows of that name %v", name, id, idx)
+		}
+		// every by-name access path reaches the SAME row, also when the caller made several rows
+		// share the name ("lookup by name, lookup by index and iteration always agree")
+		if q != q2 {
+			return fmt.Errorf("GetSequenceByName(%q) and SequenceByName(%q) return different rows: %q / %q", name, name, q.Sequence(), q2.Sequence())
+		}
+		if seqObjs[id] != q {
+			return fmt.Errorf("GetSequenceIdByName(%q)=%d (row %q=%q) but GetSequenceByName(%q) is another row of that name (%q); rows: %s", name, id, m.rows[id].Name, m.rows[id].Seq, name, q.Sequence(), showRows(snapshot(sb)))
+		}
+		if s != q.Sequence() || string(ch) != q.Sequence() {
+			return fmt.Errorf("GetSequence(%q)=%q, GetSequenceChar=%q, GetSequenceByName gives %q: not the same row", name, s, string(ch), q.Sequence())
+		}
+		if len(ch) > 0 && &ch[0] != &q.SequenceChar()[0] {
+			return fmt.Errorf("GetSequenceChar(%q) is not the residue array of the row GetSequenceByName(%q) returns", name, name)
+		}
+		if nm, ok := sb.GetSequenceNameById(id); !ok || nm != name {
+			return fmt.Errorf("GetSequenceNameById(GetSequenceIdByName(%q)=%d) = %q,%v", name, id, nm, ok)
+		}
+		if len(idx) > 1 {
+			collisionLookups++
 		}
 		byName[name] = []int{-1}
 	}
